@@ -561,3 +561,542 @@ Proof.
       match goal with |- context [match ?o with Some _ => _ | None => _ end] => destruct o end;
         cbn [wf_fault fault_encoded_len] in *; splits; auto; try (intros; contradiction); lia.
 Qed.
+
+Lemma finished_loop_nopanic c : forall fuel b, is_bytes b -> finished_loop fuel c b <> Panic.
+Proof.
+  induction fuel as [|fuel IH]; intros b Hb.
+  - destruct b; discriminate.
+  - destruct b as [|x b']; [discriminate|]. cbn [finished_loop]. np_step. np_step.
+    match goal with |- match fin_classify c ?code with _ => _ end <> _ => destruct (fin_classify c code) end;
+      [ | | discriminate ].
+    + np_step. np_step_with ltac:(apply fs_response_nopanic; assumption).
+      np_step_with ltac:(apply IH; assumption). np_done.
+    + np_step. np_step_with ltac:(apply IH; assumption). np_done.
+Qed.
+
+Lemma fin_fold_eq qs a :
+  fold_left (fun acc q => acc + 1 + 1 + fs_response_encoded_len q) qs a
+  = fold_left (fun acc q => acc + (2 + fs_response_encoded_len q)) qs a.
+Proof. revert a. induction qs as [|q qs IH]; intros a; cbn [fold_left]; [reflexivity|]. rewrite IH. f_equal. lia. Qed.
+
+Lemma fin_b0 c d s :
+  let b0 := finished_first_byte (mk_finished c d s [] None) in
+  Condition_from_u8 (bits b0 240 4) = Some c /\
+  DeliveryCode_from_u8 (bits b0 4 2) = Some d /\
+  FileStatusCode_from_u8 (bits b0 3 0) = Some s.
+Proof. destruct c, d, s; vm_compute; splits; reflexivity. Qed.
+
+Lemma finished_len p :
+  Forall wf_fin_resp (fin_filestore_response p) -> blen (finished_encode p) = finished_encoded_len p.
+Proof.
+  intros Hq. unfold finished_encode, finished_encoded_len.
+  rewrite blen_cons, blen_app, fault_len, fin_fold_eq.
+  rewrite (flat_map_blen fin_response_encode (fun q => 2 + fs_response_encoded_len q) wf_fin_resp)
+    by (auto using fin_response_blen). lia.
+Qed.
+
+Lemma finished_rt p : wf_finished p -> finished_decode (finished_encode p) = Ok (p, []).
+Proof.
+  destruct p as [c d s qs fl]. unfold wf_finished.
+  cbn [fin_condition fin_filestore_response fin_fault_location]. intros (Hq & Hf & Hc).
+  unfold finished_decode, finished_encode.
+  cbn [fin_condition fin_filestore_response fin_fault_location].
+  rewrite read_u8_cons. cbn [bind].
+  destruct (fin_b0 c d s) as (A1 & A2 & A3). unfold finished_first_byte in *.
+  cbn [fin_condition fin_delivery_code fin_file_status] in *.
+  rewrite A1, A2, A3. cbn [of_option bind read_to_end].
+  rewrite finished_loop_rt; auto.
+Qed.
+
+Lemma finished_ok b p r :
+  is_bytes b -> finished_decode b = Ok (p, r) ->
+  wf_finished p /\ r = [] /\ finished_encoded_len p <= blen b.
+Proof.
+  intros Hb H. unfold finished_decode in H. inv_ok H. repeat ok_step1.
+  match goal with Hr : is_bytes ?b2, E : finished_loop _ _ ?b2 = Ok _ |- _ =>
+    destruct (finished_loop_ok _ _ _ _ _ Hr E) as (Q1 & Q2 & Q3 & Q4) end.
+  unfold wf_finished, finished_encoded_len.
+  cbn [fin_condition fin_filestore_response fin_fault_location]. rewrite fin_fold_eq.
+  splits; auto. lia.
+Qed.
+
+Lemma finished_nopanic b : is_bytes b -> finished_decode b <> Panic.
+Proof.
+  intros Hb. unfold finished_decode. np_step. np_step. np_step. np_step.
+  np_step. np_step_with ltac:(apply finished_loop_nopanic; assumption). np_done.
+Qed.
+
+(* ------------------------------------------------------------------ ACK *)
+
+Lemma ack_b1 c s :
+  let b1 := N.lor (N.shiftl (Condition_to_u8 c) 4) (TransactionStatus_to_u8 s) in
+  Condition_from_u8 (bits b1 240 4) = Some c /\ TransactionStatus_from_u8 (bits b1 3 0) = Some s.
+Proof. destruct c, s; vm_compute; split; reflexivity. Qed.
+
+Lemma ack_b0 d s :
+  let b0 := N.lor (N.shiftl (PDUDirective_to_u8 d) 4) (ACKSubDirective_to_u8 s) in
+  PDUDirective_from_u8 (bits b0 240 4) = Some d /\ ACKSubDirective_from_u8 (bits b0 15 0) = Some s.
+Proof. destruct d, s; vm_compute; split; reflexivity. Qed.
+
+Lemma ack_len a : blen (ack_encode a) = 2.
+Proof. unfold ack_encode. rewrite !blen_cons, blen_nil. reflexivity. Qed.
+
+Lemma ack_rt a r : wf_ack a -> ack_decode (ack_encode a ++ r) = Ok (a, r).
+Proof.
+  destruct a as [d s c t]. unfold wf_ack. cbn [ack_directive ack_subtype]. intros Hw.
+  unfold ack_decode, ack_encode. cbn [ack_directive ack_subtype ack_condition ack_status app].
+  rewrite read_u8_cons. cbn [bind].
+  destruct (ack_b0 d s) as (A1 & A2). destruct (ack_b1 c t) as (B1 & B2). cbv zeta in *.
+  rewrite A1, A2. cbn [of_option bind].
+  destruct Hw as [[-> ->] | [-> ->]]; cbn [bind]; rewrite read_u8_cons; cbn [bind];
+    rewrite B1, B2; reflexivity.
+Qed.
+
+Lemma ack_ok b a r :
+  is_bytes b -> ack_decode b = Ok (a, r) -> wf_ack a /\ is_bytes r /\ 2 + blen r = blen b.
+Proof.
+  intros Hb H. unfold ack_decode in H. inv_ok H. repeat ok_step1.
+  unfold wf_ack. cbn [ack_directive ack_subtype].
+  match goal with E : match ?d with _ => _ end = Ok _ |- _ =>
+    destruct d; try discriminate E;
+    match type of E with match ?s with _ => _ end = Ok _ => destruct s; try discriminate E end;
+    inversion E; subst end; splits; auto; lia.
+Qed.
+
+Lemma ack_nopanic b : ack_decode b <> Panic.
+Proof.
+  unfold ack_decode. np_step. np_step. np_step.
+  np_step_with ltac:(match goal with |- match ?d with _ => _ end <> _ => destruct d end;
+                     match goal with |- match ?s with _ => _ end <> _ => destruct s | _ => idtac end; discriminate).
+  np_auto.
+Qed.
+
+(* ------------------------------------------------------------------ Metadata *)
+
+Lemma md_b0 cl ct :
+  let b0 := N.lor (N.shiftl (bool_u8 cl) 6) (ChecksumType_to_u8 ct) in
+  negb (bits b0 64 6 =? 0) = cl /\ ChecksumType_from_u8 (bits b0 15 0) = Some ct.
+Proof. destruct cl, ct; vm_compute; split; reflexivity. Qed.
+
+Lemma metadata_len f m :
+  blen (metadata_encode f m) = metadata_encoded_len f m.
+Proof.
+  unfold metadata_encode, metadata_encoded_len.
+  rewrite blen_cons, !blen_app, fss_encode_blen, !lv_encode_blen.
+  rewrite (flat_map_blen tlv_encode tlv_encoded_len (fun _ => True));
+    [ lia | intros; apply tlv_len | apply Forall_forall; auto ].
+Qed.
+
+Lemma metadata_rt f m : wf_metadata f m -> metadata_decode f (metadata_encode f m) = Ok (m, []).
+Proof.
+  destruct m as [cl ct sz sn dn opts]. unfold wf_metadata, wf_name, wf_lv.
+  cbn [md_file_size md_source_filename md_destination_filename md_options].
+  intros (Hsz & ((_ & L1) & U1) & ((_ & L2) & U2) & Ho).
+  unfold metadata_decode, metadata_encode.
+  cbn [md_closure_requested md_checksum_type md_file_size md_source_filename md_destination_filename md_options].
+  rewrite read_u8_cons. cbn [bind]. destruct (md_b0 cl ct) as (A1 & A2). cbv zeta in *.
+  rewrite A1, A2. cbn [of_option bind].
+  rewrite read_fss_app by exact Hsz. cbn [bind].
+  rewrite read_name_app by assumption. cbn [bind].
+  rewrite read_name_app by assumption. cbn [bind read_to_end].
+  rewrite (repeat_until_empty_rt tlv_decode tlv_encode wf_tlv); auto using tlv_rt, tlv_encode_nonempty.
+Qed.
+
+Lemma tlv_ok_le b t r :
+  is_bytes b -> tlv_decode b = Ok (t, r) -> wf_tlv t /\ is_bytes r /\ tlv_encoded_len t + blen r <= blen b.
+Proof. intros Hb H. destruct (tlv_ok _ _ _ Hb H) as (? & ? & ?). splits; auto. lia. Qed.
+
+Lemma metadata_ok f b m r :
+  is_bytes b -> metadata_decode f b = Ok (m, r) ->
+  wf_metadata f m /\ r = [] /\ metadata_encoded_len f m <= blen b.
+Proof.
+  intros Hb H. unfold metadata_decode in H. inv_ok H. repeat ok_step1.
+  match goal with Hr : is_bytes ?b2, E : repeat_until_empty tlv_decode ?b2 = Ok _ |- _ =>
+    destruct (repeat_dec_ok tlv_decode wf_tlv tlv_encoded_len tlv_ok_le _ _ _ Hr E) as (Q1 & Q2) end.
+  unfold wf_metadata, metadata_encoded_len.
+  cbn [md_file_size md_source_filename md_destination_filename md_options].
+  splits; auto using wf_name_intro. lia.
+Qed.
+
+Lemma metadata_nopanic f b : is_bytes b -> metadata_decode f b <> Panic.
+Proof.
+  intros Hb. unfold metadata_decode. np_step. np_step. np_step. np_step. np_step. np_step.
+  np_step_with ltac:(apply (repeat_dec_nopanic tlv_decode wf_tlv tlv_encoded_len tlv_ok_le tlv_nopanic); assumption).
+  np_done.
+Qed.
+
+(* ------------------------------------------------------------------ NAK *)
+
+Definition wf_seg (f : FileSizeFlag) (s : N * N) : Prop := wf_fss f (fst s) /\ wf_fss f (snd s).
+
+Lemma segment_blen f s : blen (segment_encode f s) = 2 * fss_len f.
+Proof. unfold segment_encode. rewrite blen_app, !fss_encode_blen. lia. Qed.
+
+Lemma segment_rt f s r : wf_seg f s -> segment_decode f (segment_encode f s ++ r) = Ok (s, r).
+Proof.
+  destruct s as [a e]. unfold wf_seg. cbn [fst snd]. intros [Ha He].
+  unfold segment_decode, segment_encode. cbn [fst snd]. norm_app.
+  rewrite read_fss_app by exact Ha. cbn [bind]. rewrite read_fss_app by exact He. reflexivity.
+Qed.
+
+Lemma segment_ok f b s r :
+  is_bytes b -> segment_decode f b = Ok (s, r) ->
+  wf_seg f s /\ is_bytes r /\ 2 * fss_len f + blen r <= blen b.
+Proof.
+  intros Hb H. unfold segment_decode in H. inv_ok H. repeat ok_step1.
+  unfold wf_seg. cbn [fst snd]. splits; auto. lia.
+Qed.
+
+Lemma segment_nopanic f b : is_bytes b -> segment_decode f b <> Panic.
+Proof. intros Hb. unfold segment_decode. np_auto. Qed.
+
+Lemma segment_encode_nonempty f s : segment_encode f s <> [].
+Proof.
+  intros H. pose proof (segment_blen f s) as L. rewrite H, blen_nil in L. destruct f; cbn [fss_len] in L; lia.
+Qed.
+
+Lemma nak_len f n : blen (nak_encode f n) = nak_encoded_len f n.
+Proof.
+  unfold nak_encode, nak_encoded_len. rewrite !blen_app, !fss_encode_blen.
+  rewrite (flat_map_blen (segment_encode f) (fun _ => 2 * fss_len f) (fun _ => True));
+    [ lia | intros; apply segment_blen | apply Forall_forall; auto ].
+Qed.
+
+Lemma nak_rt f n : wf_nak f n -> nak_decode f (nak_encode f n) = Ok (n, []).
+Proof.
+  destruct n as [s e segs]. unfold wf_nak.
+  cbn [nak_start_of_scope nak_end_of_scope nak_segment_requests]. intros (Hs & He & Hq).
+  unfold nak_decode, nak_encode. cbn [nak_start_of_scope nak_end_of_scope nak_segment_requests].
+  rewrite read_fss_app by exact Hs. cbn [bind]. rewrite read_fss_app by exact He. cbn [bind read_to_end].
+  rewrite (repeat_until_empty_rt (segment_decode f) (segment_encode f) (wf_seg f));
+    auto using segment_rt, segment_encode_nonempty.
+Qed.
+
+Lemma nak_ok f b n r :
+  is_bytes b -> nak_decode f b = Ok (n, r) -> wf_nak f n /\ r = [] /\ nak_encoded_len f n <= blen b.
+Proof.
+  intros Hb H. unfold nak_decode in H. inv_ok H. repeat ok_step1.
+  match goal with Hr : is_bytes ?b2, E : repeat_until_empty (segment_decode f) ?b2 = Ok _ |- _ =>
+    destruct (repeat_dec_ok (segment_decode f) (wf_seg f) (fun _ => 2 * fss_len f) (segment_ok f) _ _ _ Hr E)
+      as (Q1 & Q2) end.
+  unfold wf_nak, nak_encoded_len. cbn [nak_start_of_scope nak_end_of_scope nak_segment_requests].
+  splits; auto. lia.
+Qed.
+
+Lemma nak_nopanic f b : is_bytes b -> nak_decode f b <> Panic.
+Proof.
+  intros Hb. unfold nak_decode. np_step. np_step. np_step.
+  np_step_with ltac:(apply (repeat_dec_nopanic (segment_decode f) (wf_seg f) (fun _ => 2 * fss_len f)
+                              (segment_ok f) (segment_nopanic f)); assumption).
+  np_done.
+Qed.
+
+(* ------------------------------------------------------------------ Prompt, KeepAlive *)
+
+Lemma prompt_b0 p : NakOrKeepAlive_from_u8 (bits (N.shiftl (NakOrKeepAlive_to_u8 p) 7) 128 7) = Some p.
+Proof. destruct p; vm_compute; reflexivity. Qed.
+
+Lemma prompt_rt p r : prompt_decode (prompt_encode p ++ r) = Ok (p, r).
+Proof.
+  unfold prompt_decode, prompt_encode. cbn [app]. rewrite read_u8_cons. cbn [bind].
+  rewrite prompt_b0. reflexivity.
+Qed.
+
+Lemma prompt_ok b p r : is_bytes b -> prompt_decode b = Ok (p, r) -> is_bytes r /\ 1 + blen r = blen b.
+Proof. intros Hb H. unfold prompt_decode in H. inv_ok H. repeat ok_step1. auto. Qed.
+
+Lemma prompt_nopanic b : prompt_decode b <> Panic.
+Proof. unfold prompt_decode. np_auto. Qed.
+
+(* ------------------------------------------------------------------ Operations *)
+
+Lemma operations_len f o : wf_operations f o -> blen (operations_encode f o) = operations_encoded_len f o.
+Proof.
+  intros Hw. unfold operations_encode, operations_encoded_len. rewrite blen_cons. f_equal.
+  destruct o; cbn [wf_operations] in Hw.
+  - apply eof_len.
+  - apply finished_len. destruct Hw as (Hq & _). exact Hq.
+  - apply ack_len.
+  - apply metadata_len.
+  - apply nak_len.
+  - unfold prompt_encode. rewrite blen_cons, blen_nil. reflexivity.
+  - unfold keepalive_encode. apply fss_encode_blen.
+Qed.
+
+Lemma operations_rt f o : wf_operations f o -> operations_decode f (operations_encode f o) = Ok (o, []).
+Proof.
+  intros Hw. unfold operations_decode, operations_encode. rewrite read_u8_cons. cbn [bind].
+  rewrite PDUDirective_rt. cbn [of_option bind].
+  destruct o; cbn [op_directive wf_operations] in *.
+  - rewrite <- (app_nil_r (eof_encode f e)). rewrite eof_rt by exact Hw. reflexivity.
+  - rewrite finished_rt by exact Hw. reflexivity.
+  - rewrite <- (app_nil_r (ack_encode a)). rewrite ack_rt by exact Hw. reflexivity.
+  - rewrite metadata_rt by exact Hw. reflexivity.
+  - rewrite nak_rt by exact Hw. reflexivity.
+  - rewrite <- (app_nil_r (prompt_encode p)). rewrite prompt_rt. reflexivity.
+  - unfold keepalive_decode, keepalive_encode. rewrite <- (app_nil_r (fss_encode f progress)).
+    rewrite read_fss_app by exact Hw. reflexivity.
+Qed.
+
+Lemma operations_ok f b o r :
+  is_bytes b -> operations_decode f b = Ok (o, r) ->
+  wf_operations f o /\ operations_encoded_len f o <= blen b.
+Proof.
+  intros Hb H. unfold operations_decode in H. inv_ok H. repeat ok_step1.
+  match goal with x : PDUDirective |- _ => destruct x end; inv_ok H;
+    unfold operations_encoded_len; cbn [wf_operations].
+  - match goal with Hr : is_bytes ?b2, E : eof_decode f ?b2 = Ok _ |- _ =>
+      destruct (eof_ok _ _ _ _ Hr E) as (? & ? & ?) end. split; auto; lia.
+  - match goal with Hr : is_bytes ?b2, E : finished_decode ?b2 = Ok _ |- _ =>
+      destruct (finished_ok _ _ _ Hr E) as (? & ? & ?) end. split; auto; lia.
+  - match goal with Hr : is_bytes ?b2, E : ack_decode ?b2 = Ok _ |- _ =>
+      destruct (ack_ok _ _ _ Hr E) as (? & ? & ?) end. split; auto; lia.
+  - match goal with Hr : is_bytes ?b2, E : metadata_decode f ?b2 = Ok _ |- _ =>
+      destruct (metadata_ok _ _ _ _ Hr E) as (? & ? & ?) end. split; auto; lia.
+  - match goal with Hr : is_bytes ?b2, E : nak_decode f ?b2 = Ok _ |- _ =>
+      destruct (nak_ok _ _ _ _ Hr E) as (? & ? & ?) end. split; auto; lia.
+  - match goal with Hr : is_bytes ?b2, E : prompt_decode ?b2 = Ok _ |- _ =>
+      destruct (prompt_ok _ _ _ Hr E) as (? & ?) end. split; auto; lia.
+  - unfold keepalive_decode in *. repeat ok_step1. split; auto; lia.
+Qed.
+
+Lemma operations_nopanic f b : is_bytes b -> operations_decode f b <> Panic.
+Proof.
+  intros Hb. unfold operations_decode. np_step. np_step.
+  match goal with x : PDUDirective |- _ => destruct x end.
+  - np_step_with ltac:(apply eof_nopanic; assumption). np_done.
+  - np_step_with ltac:(apply finished_nopanic; assumption). np_done.
+  - np_step_with ltac:(apply ack_nopanic). np_done.
+  - np_step_with ltac:(apply metadata_nopanic; assumption). np_done.
+  - np_step_with ltac:(apply nak_nopanic; assumption). np_done.
+  - np_step_with ltac:(apply prompt_nopanic). np_done.
+  - unfold keepalive_decode. np_auto.
+Qed.
+
+(* ------------------------------------------------------------------ file data *)
+
+Lemma pack_2_6 c n :
+  c < 4 -> n < 64 ->
+  bits (N.lor (N.shiftl c 6) n) 192 6 = c /\ bits (N.lor (N.shiftl c 6) n) 63 0 = n.
+Proof.
+  intros Hc Hn.
+  assert (S : forallb (fun c => forallb (fun n =>
+                (bits (N.lor (N.shiftl c 6) n) 192 6 =? c) && (bits (N.lor (N.shiftl c 6) n) 63 0 =? n))
+                (below 64)) (below 4) = true) by (vm_compute; reflexivity).
+  pose proof (sweep _ 4 S c Hc) as S1. cbv beta in S1.
+  pose proof (sweep _ 64 S1 n Hn) as S2. cbv beta in S2.
+  apply andb_true_iff in S2 as [A B]. apply N.eqb_eq in A, B. auto.
+Qed.
+
+Lemma rcs_byte b :
+  b < 256 -> bits b 63 0 <= 63 /\ exists s, RecordContinuationState_from_u8 (bits b 192 6) = Some s.
+Proof.
+  intros Hb.
+  by_byte_sweep (fun b => (bits b 63 0 <=? 63) &&
+                          match RecordContinuationState_from_u8 (bits b 192 6) with Some _ => true | None => false end) b Hb.
+  cbv beta in H. apply andb_true_iff in H as [A B]. apply N.leb_le in A. split; [exact A|].
+  destruct (RecordContinuationState_from_u8 (bits b 192 6)) as [s|]; [eauto | discriminate].
+Qed.
+
+Lemma file_data_len f d : wf_file_data f d -> blen (file_data_encode f d) = file_data_encoded_len f d.
+Proof.
+  destruct d; cbn [wf_file_data file_data_encode file_data_encoded_len]; intros Hw.
+  - rewrite blen_app, fss_encode_blen. lia.
+  - rewrite blen_cons, !blen_app, fss_encode_blen. lia.
+Qed.
+
+Lemma file_data_rt f d seg :
+  wf_file_data f d ->
+  seg = match d with Fd_Unsegmented _ _ => SegmentedData_NotPresent | _ => SegmentedData_Present end ->
+  file_data_decode seg f (file_data_encode f d) = Ok (d, []).
+Proof.
+  intros Hw ->. destruct d; cbn [wf_file_data file_data_encode file_data_decode] in *.
+  - destruct Hw as [Ho _]. unfold unsegmented_decode. rewrite read_fss_app by exact Ho. reflexivity.
+  - destruct Hw as (_ & Hm & Ho & _). unfold segmented_decode. rewrite read_u8_cons. cbn [bind].
+    rewrite as_u8_small by lia.
+    destruct (pack_2_6 (RecordContinuationState_to_u8 state) (blen segment_metadata)) as [A B];
+      [apply RecordContinuationState_fits | lia |].
+    rewrite A, B, RecordContinuationState_rt. cbn [unwrap bind].
+    rewrite read_exact_app by (auto; lia). cbn [bind].
+    rewrite read_fss_app by exact Ho. reflexivity.
+Qed.
+
+Lemma file_data_ok seg f b d r :
+  is_bytes b -> file_data_decode seg f b = Ok (d, r) ->
+  wf_file_data f d /\ file_data_encoded_len f d <= blen b /\
+  seg = match d with Fd_Unsegmented _ _ => SegmentedData_NotPresent | _ => SegmentedData_Present end.
+Proof.
+  intros Hb H. destruct seg; cbn [file_data_decode] in H.
+  - unfold unsegmented_decode in H. inv_ok H. repeat ok_step1.
+    cbn [wf_file_data file_data_encoded_len]. splits; auto. lia.
+  - unfold segmented_decode in H. inv_ok H. repeat ok_step1.
+    match goal with Hx : ?x < 256 |- _ => destruct (rcs_byte x Hx) as [R1 _] end.
+    cbn [wf_file_data file_data_encoded_len]. splits; auto; lia.
+Qed.
+
+Lemma file_data_nopanic seg f b : is_bytes b -> file_data_decode seg f b <> Panic.
+Proof.
+  intros Hb. destruct seg; cbn [file_data_decode].
+  - unfold unsegmented_decode. np_step. np_step. np_done.
+  - unfold segmented_decode. np_step.
+    match goal with Hx : ?x < 256 |- _ => destruct (rcs_byte x Hx) as [R1 [s R2]] end.
+    rewrite R2. cbn [unwrap bind]. np_step. np_step. np_step. np_done.
+Qed.
+
+(* ------------------------------------------------------------------ payload *)
+
+Lemma payload_len f p : wf_payload f p -> blen (payload_encode f p) = payload_encoded_len f p.
+Proof.
+  destruct p; cbn [wf_payload payload_encode payload_encoded_len];
+    [apply operations_len | apply file_data_len].
+Qed.
+
+Lemma payload_rt h p :
+  wf_payload (h_large h) p -> payload_matches h p ->
+  payload_decode (h_pdu_type h) (h_large h) (h_segmeta h) (payload_encode (h_large h) p) = Ok (p, []).
+Proof.
+  intros Hw Hm. destruct p as [o|d]; cbn [wf_payload payload_matches payload_encode] in *.
+  - rewrite Hm. cbn [payload_decode]. rewrite operations_rt by exact Hw. reflexivity.
+  - destruct d; destruct Hm as [-> Hs]; cbn [payload_decode];
+      rewrite (file_data_rt _ _ _ Hw Hs); reflexivity.
+Qed.
+
+Lemma payload_ok h b p r :
+  is_bytes b -> payload_decode (h_pdu_type h) (h_large h) (h_segmeta h) b = Ok (p, r) ->
+  wf_payload (h_large h) p /\ payload_matches h p /\ payload_encoded_len (h_large h) p <= blen b.
+Proof.
+  intros Hb H. destruct (h_pdu_type h) eqn:Et; cbn [payload_decode] in H; inv_ok H.
+  - match goal with E : operations_decode _ _ = Ok _ |- _ =>
+      destruct (operations_ok _ _ _ _ Hb E) as (? & ?) end.
+    cbn [wf_payload payload_matches payload_encoded_len]. auto.
+  - match goal with E : file_data_decode _ _ _ = Ok _ |- _ =>
+      destruct (file_data_ok _ _ _ _ _ Hb E) as (? & ? & Hs) end.
+    cbn [wf_payload payload_matches payload_encoded_len]. splits; auto.
+    match goal with |- match ?d with _ => _ end => destruct d end; auto.
+Qed.
+
+Lemma payload_nopanic t f s b : is_bytes b -> payload_decode t f s b <> Panic.
+Proof.
+  intros Hb. destruct t; cbn [payload_decode].
+  - np_step_with ltac:(apply operations_nopanic; assumption). np_done.
+  - np_step_with ltac:(apply file_data_nopanic; assumption). np_done.
+Qed.
+
+(* ------------------------------------------------------------------ whole PDU *)
+
+Lemma crc_bytes_blen m : blen (crc_bytes m) = 2.
+Proof. unfold crc_bytes. rewrite !blen_cons, blen_nil. reflexivity. Qed.
+
+Lemma crc_bytes_decode m : be_decode (crc_bytes m) = crc16 m.
+Proof.
+  unfold crc_bytes. rewrite !be_decode_cons, be_decode_nil, blen_cons, blen_nil.
+  change (256 ^ (1 + 0)) with 256. change (256 ^ 0) with 1.
+  rewrite N.shiftr_div_pow2. change 255 with (N.ones 8). rewrite N.land_ones.
+  change (2 ^ 8) with 256. pose proof (N.div_mod (crc16 m) 256). lia.
+Qed.
+
+Lemma read_exact_all n c : blen c = n -> n <= 65535 -> read_exact n c = Ok (c, []).
+Proof. intros H1 H2. rewrite <- (app_nil_r c) at 1. apply read_exact_app; assumption. Qed.
+
+Lemma firstn_drop_suffix (a c : bytes) : firstn (length (a ++ c) - length c) (a ++ c) = a.
+Proof.
+  rewrite app_length. replace (length a + length c - length c)%nat with (length a) by lia.
+  rewrite firstn_app, Nat.sub_diag, firstn_all. cbn [firstn]. apply app_nil_r.
+Qed.
+
+Lemma pdu_len_holds p : wf_pdu p -> blen (pdu_encode p) = pdu_encoded_len p.
+Proof.
+  destruct p as [h pl]. unfold wf_pdu. cbn [pdu_hdr pdu_pl]. intros (Hh & Hp & Hm & Hl).
+  unfold pdu_encode, pdu_encoded_len. cbn [pdu_hdr pdu_pl].
+  destruct (h_crc h); cbn [crc_len];
+    rewrite ?blen_app, ?crc_bytes_blen, header_len, (payload_len _ _ Hp); lia.
+Qed.
+
+Lemma pdu_roundtrip_holds p : wf_pdu p -> pdu_decode (pdu_encode p) = Ok p.
+Proof.
+  destruct p as [h pl]. unfold wf_pdu. cbn [pdu_hdr pdu_pl]. intros (Hh & Hp & Hm & Hl).
+  pose proof (payload_len _ _ Hp) as Lp.
+  assert (Hn : h_len h <= 65535) by (destruct Hh as (_ & _ & _ & _ & Hn); lia).
+  unfold pdu_decode, pdu_encode. cbn [pdu_hdr pdu_pl].
+  destruct (h_crc h) eqn:Ec.
+  - rewrite header_rt by exact Hh. cbn [bind].
+    rewrite read_exact_all by (auto; lia). cbn [bind].
+    rewrite payload_rt by assumption. cbn [bind]. rewrite Ec. reflexivity.
+  - remember (crc_bytes (header_encode h ++ payload_encode (h_large h) pl)) as crc eqn:Hcrc.
+    rewrite <- app_assoc. rewrite header_rt by exact Hh. cbn [bind].
+    rewrite read_exact_app by (auto; lia). cbn [bind].
+    rewrite payload_rt by assumption. cbn [bind]. rewrite Ec.
+    rewrite app_assoc, firstn_drop_suffix.
+    rewrite read_exact_all by (subst crc; first [apply crc_bytes_blen | lia]). cbn [bind].
+    subst crc. rewrite crc_bytes_decode, N.eqb_refl. reflexivity.
+Qed.
+
+Lemma wf_header_set_len h n : wf_header h -> n <= h_len h -> wf_header (set_len h n).
+Proof.
+  unfold wf_header, set_len. cbn [h_src h_seq h_dst h_len h_crc]. intros (A & B & C & D & E) Hn.
+  splits; auto. lia.
+Qed.
+
+Lemma payload_matches_set_len h n p : payload_matches h p -> payload_matches (set_len h n) p.
+Proof. destruct p as [o|[ | ]]; cbn [payload_matches set_len h_pdu_type h_segmeta]; auto. Qed.
+
+(* what pdu_decode accepts: header, payload cut from the data field, payload well-formed *)
+Lemma pdu_decode_inv b p :
+  is_bytes b -> pdu_decode b = Ok p ->
+  wf_header (pdu_hdr p) /\ wf_payload (h_large (pdu_hdr p)) (pdu_pl p) /\
+  payload_matches (pdu_hdr p) (pdu_pl p) /\
+  payload_encoded_len (h_large (pdu_hdr p)) (pdu_pl p) <= h_len (pdu_hdr p) /\
+  header_encoded_len (pdu_hdr p) + h_len (pdu_hdr p) + crc_len (h_crc (pdu_hdr p)) <= blen b.
+Proof.
+  intros Hb H. unfold pdu_decode in H. inv_ok H.
+  match goal with E : header_decode b = Ok _ |- _ =>
+    destruct (header_ok _ _ _ Hb E) as (Hh & Hr & Hlen) end.
+  repeat ok_step1.
+  match goal with Hd : is_bytes ?d, E : payload_decode _ _ _ ?d = Ok _ |- _ =>
+    destruct (payload_ok _ _ _ _ Hd E) as (Hp & Hm & Hpl) end.
+  assert (Hres : p = mk_pdu p0 p1 /\ crc_len (h_crc p0) <= blen b2).
+  { destruct (h_crc p0); cbn [crc_len].
+    - inversion H; subst. splits; auto; lia.
+    - inv_ok H. repeat ok_step1.
+      match goal with H' : (if ?c then _ else _) = Ok _ |- _ => destruct c; [|discriminate H'];
+        inversion H'; subst end. splits; auto; lia. }
+  destruct Hres as (-> & Hc). cbn [pdu_hdr pdu_pl]. splits; auto; lia.
+Qed.
+
+Lemma decode_canonical_holds b p :
+  is_bytes b -> pdu_decode b = Ok p ->
+  wf_pdu (fix_len p) /\ pdu_decode (pdu_encode (fix_len p)) = Ok (fix_len p).
+Proof.
+  intros Hb H. destruct (pdu_decode_inv _ _ Hb H) as (Hh & Hp & Hm & Hl & _).
+  assert (Hw : wf_pdu (fix_len p)).
+  { destruct p as [h pl]. unfold wf_pdu, fix_len. cbn [pdu_hdr pdu_pl] in *.
+    splits.
+    - apply wf_header_set_len; assumption.
+    - exact Hp.
+    - apply payload_matches_set_len. exact Hm.
+    - reflexivity. }
+  split; [exact Hw | apply pdu_roundtrip_holds; exact Hw].
+Qed.
+
+Lemma decode_total_holds b : is_bytes b -> pdu_decode b <> Panic.
+Proof.
+  intros Hb. unfold pdu_decode.
+  apply bind_nopanic; [apply header_nopanic; exact Hb|]. intros [h r] E.
+  destruct (header_ok _ _ _ Hb E) as (Hh & Hr & _).
+  assert (Hn : h_len h <= 65535) by (destruct Hh as (_ & _ & _ & _ & Hn); lia).
+  apply bind_nopanic; [apply read_exact_nopanic; exact Hn|]. intros [data r2] E2.
+  apply (read_exact_ok _ _ _ _ Hr) in E2 as (Hd & Hr2 & _ & _).
+  apply bind_nopanic; [apply payload_nopanic; exact Hd|]. intros [pl r3] _.
+  destruct (h_crc h); [discriminate|].
+  apply bind_nopanic; [apply read_exact_nopanic; lia|]. intros [c r4] _.
+  match goal with |- (if ?c then _ else _) <> _ => destruct c end; discriminate.
+Qed.
+
+(* every buffer pdu_decode cuts for the payload decoders is at most 65535 bytes long, and
+   the instrumented primitive turns any larger request into Panic (read_exact_oversize) *)
+Lemma payload_buffer_bounded b h r data r2 :
+  is_bytes b -> header_decode b = Ok (h, r) -> read_exact (h_len h) r = Ok (data, r2) ->
+  blen data <= 65535.
+Proof.
+  intros Hb E E2. apply read_exact_inv in E2 as (_ & -> & Hn). exact Hn.
+Qed.
